@@ -2,7 +2,7 @@
    at every point of every grid with at least two points per dimension. *)
 Set Default Timeout 120.
 From Coq Require Import ZArith List Bool Reals Lra Lia Psatz.
-From CV Require Import Base.Num Base.RNum C16.IntegrateModel C16.IntegrateProofs.
+From CV Require Import Base.Num Base.RNum C16.IntegrateModel C16.IntegrateProofs C16.IntegrateRProofs C16.LaplaceProofs.
 Import ListNotations.
 Local Open Scope Z_scope.
 
@@ -429,3 +429,111 @@ Section Phases.
     destruct (Z.leb_spec 0 i); [|lia]. destruct (Z.ltb_spec i (1 + (w - 2) + 1)); [|lia]. cbn [andb]. reflexivity.
   Qed.
 End Phases.
+
+(* ------------------------------------------------------------------ loops = per-point stencil, over the reals *)
+Section LoopsEqStencil.
+  Local Open Scope R_scope.
+  Variable sh : shape2 (T:=R).
+  Variable A : Z -> R.
+  Notation w := (npmf (px sh) (nxg sh)).
+  Notation h := (npmf (py sh) (nyg sh)).
+  Notation ffx := (1 / (wx sh * wx sh)).
+  Notation ffy := (1 / (wy sh * wy sh)).
+  Hypothesis Hw : (2 <= w)%Z.
+  Hypothesis Hh : (2 <= h)%Z.
+
+  Lemma wrap_m1 n : (2 <= n)%Z -> wrap1 true n (0 - 1) = (n - 1)%Z.
+  Proof. intros Hn. rewrite wrap1_mod by lia. replace (0 - 1)%Z with (-1)%Z by lia. apply mod_minus_one. lia. Qed.
+  Lemma wrap_small n k : (0 <= k < n)%Z -> wrap1 true n k = k.
+  Proof. intros Hk. rewrite wrap1_mod by lia. apply Z.mod_small. lia. Qed.
+  Lemma wrap_top n : (2 <= n)%Z -> wrap1 true n (n - 1 + 1) = 0%Z.
+  Proof. intros Hn. rewrite wrap1_mod by lia. replace (n - 1 + 1)%Z with n by lia. apply Z.mod_same. lia. Qed.
+
+  (* make the index expressions that are equal as polynomials syntactically equal *)
+  Ltac norm_idx :=
+    repeat match goal with
+           | |- context [A ?e1] =>
+             match goal with
+             | |- context [A ?e2] => tryif constr_eq e1 e2 then fail else (replace e1 with e2 by ring)
+             end
+           end.
+
+  Lemma kind_fact per n k (c : R) :
+    match fkind Rops per n k with Some fa => fa * c | None => c end = efact Rops per n k * c.
+  Proof.
+    unfold fkind, efact, edgef, isedge. destruct per; destruct ((k =? 0)%Z || (k =? n - 1)%Z); cbn [n1 Rops]; ring.
+  Qed.
+
+  (* x direction *)
+  Lemma xval_eq i j : (0 <= i < w)%Z -> (0 <= j < h)%Z ->
+    (if (i =? 0)%Z then xtl Rops sh A (fkind Rops (py sh) h j) (i * h + j)
+     else if (i =? w - 1)%Z then xtr Rops sh A (fkind Rops (py sh) h j) (i * h + j)
+     else cen Rops A ffx (fkind Rops (py sh) h j) (i * h + j) (i * h + j - h) (i * h + j + h))
+    = efact Rops (py sh) h j * ffx * lap1 Rops (px sh) w (fun i' => A (i' * h + j)%Z) i.
+  Proof.
+    intros Hi Hj. rewrite Rmult_assoc, <- kind_fact. pose proof Hw as Hw'.
+    unfold xtl, xtr, cen, one_sided, lap1.
+    set (W := npmf (px sh) (nxg sh)) in *.
+    destruct (Z.eqb_spec i 0) as [->|Hi0]; [|destruct (Z.eqb_spec i (W - 1)) as [->|Hiw]].
+    - destruct (px sh) eqn:Epx; cbn [nadd nsub nmul ndiv nofZ n1 Rops].
+      + rewrite wrap_m1 by lia. rewrite (wrap_small W (0 + 1)) by lia.
+        destruct (fkind Rops (py sh) h j); norm_idx; ring.
+      + cbn [Z.eqb]. destruct (fkind Rops (py sh) h j); norm_idx; ring.
+    - destruct (px sh) eqn:Epx; cbn [nadd nsub nmul ndiv nofZ n1 Rops].
+      + rewrite wrap_top by lia. rewrite (wrap_small W (W - 1 - 1)) by lia.
+        destruct (fkind Rops (py sh) h j); norm_idx; ring.
+      + repeat match goal with |- context [(?a =? ?b)%Z] => destruct (Z.eqb_spec a b); try lia end.
+        destruct (fkind Rops (py sh) h j); cbn [nsub Rops]; norm_idx; ring.
+    - destruct (px sh) eqn:Epx; cbn [nadd nsub nmul ndiv nofZ n1 Rops].
+      + rewrite (wrap_small W (i - 1)), (wrap_small W (i + 1)) by lia.
+        destruct (fkind Rops (py sh) h j); norm_idx; ring.
+      + destruct (Z.eqb_spec i 0); [lia|]. destruct (Z.eqb_spec i (W - 1)); [lia|].
+        destruct (fkind Rops (py sh) h j); cbn [nadd nsub nmul nofZ Rops]; norm_idx; ring.
+  Qed.
+
+  (* y direction *)
+  Lemma yval_eq i j : (0 <= i < w)%Z -> (0 <= j < h)%Z ->
+    (if (j =? 0)%Z then ytl Rops sh A (fkind Rops (px sh) w i) (i * h + j)
+     else if (j =? h - 1)%Z then ytr Rops sh A (fkind Rops (px sh) w i) (i * h + j)
+     else cen Rops A ffy (Some (fi Rops sh i)) (i * h + j) (i * h + j - 1) (i * h + j + 1))
+    = efact Rops (px sh) w i * ffy * lap1 Rops (py sh) h (fun j' => A (i * h + j')%Z) j.
+  Proof.
+    intros Hi Hj. rewrite Rmult_assoc.
+    assert (Efi : forall c, fi Rops sh i * ffy * c = efact Rops (px sh) w i * (ffy * c)).
+    { intros c. unfold fi, efact, edgef, isedge. destruct (px sh); destruct ((i =? 0)%Z || (i =? _ - 1)%Z); cbn [n1 Rops]; ring. }
+    pose proof Hh as Hh'. unfold ytl, ytr, cen, one_sided, lap1.
+    set (H := npmf (py sh) (nyg sh)) in *.
+    destruct (Z.eqb_spec j 0) as [->|Hj0]; [|destruct (Z.eqb_spec j (H - 1)) as [->|Hjh]].
+    - rewrite <- kind_fact. destruct (py sh) eqn:Epy; cbn [nadd nsub nmul ndiv nofZ n1 Rops].
+      + rewrite wrap_m1 by lia. rewrite (wrap_small H (0 + 1)) by lia.
+        destruct (fkind Rops (px sh) w i); norm_idx; ring.
+      + cbn [Z.eqb]. destruct (fkind Rops (px sh) w i); norm_idx; ring.
+    - rewrite <- kind_fact. destruct (py sh) eqn:Epy; cbn [nadd nsub nmul ndiv nofZ n1 Rops].
+      + rewrite wrap_top by lia. rewrite (wrap_small H (H - 1 - 1)) by lia.
+        destruct (fkind Rops (px sh) w i); norm_idx; ring.
+      + repeat match goal with |- context [(?a =? ?b)%Z] => destruct (Z.eqb_spec a b); try lia end.
+        destruct (fkind Rops (px sh) w i); cbn [nsub Rops]; norm_idx; ring.
+    - cbn [nadd nsub nmul ndiv nofZ n1 Rops]. rewrite Efi. f_equal. f_equal.
+      destruct (py sh) eqn:Epy; cbn [nadd nsub nmul nofZ Rops].
+      + rewrite (wrap_small H (j - 1)), (wrap_small H (j + 1)) by lia. norm_idx. ring.
+      + destruct (Z.eqb_spec j 0); [lia|]. destruct (Z.eqb_spec j (H - 1)); [lia|].
+        cbn [nadd nsub nmul nofZ Rops]. norm_idx. ring.
+  Qed.
+
+  Theorem atimes2_loops_eq_stencil LA i j : (0 <= i < w)%Z -> (0 <= j < h)%Z ->
+    atimes2_loops Rops sh A LA (i * h + j) = atimes2 Rops sh (fun p => A (fst p * h + snd p)%Z) (i, j).
+  Proof.
+    intros Hi Hj. rewrite atimes2_eq. cbn [fst snd].
+    rewrite <- (xval_eq i j Hi Hj), <- (yval_eq i j Hi Hj).
+    unfold atimes2_loops.
+    rewrite (yedge_spec Rops sh A Hw Hh) by auto. rewrite (yint_spec Rops sh A Hw Hh) by auto.
+    rewrite (xedge_spec Rops sh A Hw Hh) by auto. rewrite (xint_spec Rops sh A Hw Hh) by auto.
+    unfold midrow. cbn [nadd Rops].
+    destruct (Z.eqb_spec i 0) as [Ei|Ei]; [|destruct (Z.eqb_spec i (w - 1)) as [Ei'|Ei']];
+    destruct (Z.eqb_spec j 0) as [Ej|Ej]; try (destruct (Z.eqb_spec j (h - 1)) as [Ej'|Ej']);
+    repeat match goal with
+           | |- context [(?a <=? ?b)%Z] => destruct (Z.leb_spec a b); try lia
+           | |- context [(?a <? ?b)%Z] => destruct (Z.ltb_spec a b); try lia
+           end; cbn [andb]; try reflexivity; try lia.
+  Qed.
+End LoopsEqStencil.
